@@ -9,7 +9,7 @@ struct BbHarness : Harness {
     std::vector<std::string> props() const override { return {"C18"}; }
     std::vector<std::string> probes(const std::string &) const override {
         return {"rewind_partial", "rewind_fully_consumed", "add_exactly_fills", "add_refused", "consume_refused", "consume_at_most_clipped",
-                "invalid_setup_null_memory", "invalid_setup_zero_size", "invalid_setup_used_gt_size", "invalid_setup_offset_gt_used", "count_beyond_any_block"};
+                "invalid_setup_null_memory", "invalid_setup_zero_size", "invalid_setup_used_gt_size", "invalid_setup_offset_gt_used", "count_beyond_any_block", "buffer_of_64k_octets_or_more"};
     }
     uint64_t runs(const std::string &, const Tier &t) const override { return t.thorough() ? 6000000 : 1500000; }
 
@@ -36,6 +36,7 @@ struct BbHarness : Harness {
     Json gen(const std::string &, Rng &r, const Tier &t, uint64_t) override {
         Json p = Json::obj();
         int64_t size = r.chance(3, 4) ? r.range(1, 5) : (t.thorough() ? (r.chance(1, 4) ? r.range(6, 4096) : r.range(6, 64)) : r.range(6, 16));
+        if (r.chance(1, t.thorough() ? 500 : 2000)) { static const int64_t BIG[] = {65535, 65536, 65537, 70000}; size = BIG[r.below(4)]; }   // fill and read marks that do not fit 16 bits
         p["size"] = (long long)size;
         int64_t used = r.chance(1, 2) ? 0 : r.range(0, size);
         int64_t off = r.chance(1, 2) ? 0 : r.range(0, used);
@@ -54,7 +55,7 @@ struct BbHarness : Harness {
             int64_t n = r.chance(1, 6) ? (r.chance(1, 2) ? 0 : size + 1) : r.range(0, size < 8 ? size : (r.chance(1, 2) ? 8 : size));
             if (pickw < wp) { o["t"] = "P"; o["op"] = "add"; o["n"] = (long long)n; }
             else if (pickw < wp + wc) { o["t"] = "C"; o["op"] = r.chance(1, 2) ? "consume" : "atmost"; o["n"] = (long long)n; }
-            if (pickw < wp + wc && r.chance(1, 24)) o["big"] = (long long)r.below(8);   // a count near SIZE_MAX / 2^32 / wrapping the fill or read mark
+            if (pickw < wp + wc) { if (r.chance(1, 24)) o["big"] = (long long)r.below(8); }   // a count near SIZE_MAX / 2^32 / wrapping the fill or read mark
             else {
                 o["t"] = "H";
                 const std::string &k = r.pick(hk);
@@ -70,7 +71,8 @@ struct BbHarness : Harness {
     }
 
     void exec(const Json &plan, Ctx &c) override {
-        int64_t bsize = plan.geti("size", 1); if (bsize < 1) bsize = 1; if (bsize > 1 << 16) bsize = 1 << 16;
+        int64_t bsize = plan.geti("size", 1); if (bsize < 1) bsize = 1; if (bsize > 1 << 17) bsize = 1 << 17;
+        if (bsize >= 65536) COUNT("probe.buffer_of_64k_octets_or_more");
         int64_t u0 = plan.geti("used"); if (u0 < 0) u0 = 0; if (u0 > bsize) u0 = bsize;
         int64_t f0 = plan.geti("offset"); if (f0 < 0) f0 = 0; if (f0 > u0) f0 = u0;
         GuardedBlock blk((size_t)bsize);
